@@ -144,8 +144,9 @@ MatchesW(c, b) == ContentBadW(c, b) = {}
 (* WriteBad(srcs, den): srcs = the material of every range handed to the   *)
 (* writer (flattened, in order), den = MtlDenote(written text).            *)
 (*   Covers     every material is described by some block; when no block   *)
-(*              describes it but one carries its name, the parts that are  *)
-(*              off are reported instead (Colour / Scalar / Texture)       *)
+(*              describes it but some carry its name (blanks removed), the *)
+(*              parts in which the closest of them is off are reported     *)
+(*              instead (Colour / Scalar / Texture)                        *)
 (*   NameKept   a name that is a token is written as it is                 *)
 (*   Ambiguous  another block of the same name says something else         *)
 (*   Invented   a block that describes no source material                  *)
